@@ -464,6 +464,10 @@ func init() {
 				}
 			}
 		}
+		// rules of the $domain table filed under a domain and under its own
+		// sub-domain, next to rules filed under the sub-domain only
+		engPool = append(engPool, srule{false, "/x", []string{"domain=src.org|sub.src.org"}}, srule{true, "/x", []string{"domain=sub.src.org"}},
+			srule{false, "/x", []string{"domain=sub.src.org", "important"}}, srule{true, "/x", []string{"domain=sub.src.org|src.org", "script"}})
 		var engLists [][]int
 		for size := 1; size <= 3; size++ {
 			enum.Sequences(len(engPool), size, func(s []int) bool {
@@ -482,28 +486,40 @@ func init() {
 		c.parallel(len(engLists), func(li int) {
 			var lines []string
 			byT := map[string]srule{}
-			best := [3]int{-1, 0, 0}
 			for _, i := range engLists[li] {
 				lines = append(lines, engPool[i].text())
 				byT[engPool[i].text()] = engPool[i]
-				if k := engPool[i].key(); keyLess(best, k) {
-					best = k
-				}
 			}
 			st := stringStorage(joinLines(lines) + "\n")
-			req := func() *rules.Request {
-				return rules.NewRequest("http://ads.example.com/x", "http://src.org/", rules.TypeScript)
-			}
-			sel1 := urlfilter.NewEngine(st).MatchRequest(req()).BasicRule
-			sel2, _ := urlfilter.NewNetworkEngine(st).Match(req())
-			for which, sel := range []*rules.NetworkRule{sel1, sel2} {
-				name := []string{"Engine.MatchRequest", "NetworkEngine.Match"}[which]
-				mu.Lock()
-				engSelections++
-				mu.Unlock()
-				if sel == nil || byT[sel.RuleText].key() != best {
-					c.Run.Violate(ev.Violation{Pred: "engine-selected-rule-is-maximal", Sig: map[string]any{"lines": lines, "engine": name},
-						What: fmt.Sprintf("%s over %v selected %s, the maximal (class, specific, count) key among the candidates is %v", name, lines, renderNetText(sel), best), Replay: map[string]any{"rules": []string{}}})
+			for _, src := range []string{"http://src.org/", "http://sub.src.org/"} {
+				req := func() *rules.Request {
+					return rules.NewRequest("http://ads.example.com/x", src, rules.TypeScript)
+				}
+				// the candidates are the rules that match as written
+				best := [3]int{-1, 0, 0}
+				for _, i := range engLists[li] {
+					sr, ok := sruleToC04(engPool[i])
+					if !ok {
+						panic(HarnessError("engine pool rule outside the structural reference: " + engPool[i].text()))
+					}
+					if !c04Reference(sr, req()) {
+						continue
+					}
+					if k := engPool[i].key(); keyLess(best, k) {
+						best = k
+					}
+				}
+				sel1 := urlfilter.NewEngine(st).MatchRequest(req()).BasicRule
+				sel2, _ := urlfilter.NewNetworkEngine(st).Match(req())
+				for which, sel := range []*rules.NetworkRule{sel1, sel2} {
+					name := []string{"Engine.MatchRequest", "NetworkEngine.Match"}[which]
+					mu.Lock()
+					engSelections++
+					mu.Unlock()
+					if (sel == nil) != (best[0] == -1) || (sel != nil && byT[sel.RuleText].key() != best) {
+						c.Run.Violate(ev.Violation{Pred: "engine-selected-rule-is-maximal", Sig: map[string]any{"lines": lines, "engine": name, "source": src},
+							What: fmt.Sprintf("%s over %v for a request from %s selected %s, the maximal (class, specific, count) key among the rules that match is %v", name, lines, src, renderNetText(sel), best), Replay: map[string]any{"rules": []string{}}})
+					}
 				}
 			}
 		})
